@@ -241,9 +241,11 @@ def run_worker(runs, hashseed, scratch, tag, fork_each=False):
     return data['results'], ''
 
 
-def strip_job(job, want_text=False, slot=None):
+def strip_job(job, want_text=False, slot=None, cwd=None):
     run = {'deck': job['deck'], 'args': job['args'],
            'encoding': job.get('encoding', 'utf-8')}
+    if cwd is not None:
+        run['cwd'] = cwd
     if want_text:
         run['want_text'] = True
     if slot is not None:
@@ -333,6 +335,55 @@ def cache_witness(res, scratch):
             cls='cache_option_stale_disk_cache', found_input=True)
 
 
+def same_path_pairs(res, quick, rng, jobs, fresh_res, hashseeds, scratch):
+    '''Same process, same input path: convert A, then B (another deck,
+    possibly other options, possibly failing), then A again.  B must come out
+    as in a fresh process, and so must the second A.'''
+    good = [k for k in range(len(jobs)) if (k, hashseeds[0]) in fresh_res
+            and '--cache' not in jobs[k]['args']]
+    n_pairs = 16 if quick else 150
+    pairs = [(n, rng.choice(good), rng.choice(good)) for n in range(n_pairs)]
+
+    def one(item):
+        n, a, b = item
+        out, err = run_worker([strip_job(jobs[a], slot='p'),
+                               strip_job(jobs[b], slot='p'),
+                               strip_job(jobs[a], slot='p')],
+                              hashseeds[n % len(hashseeds)], scratch, f'p{n}')
+        return item, out, err
+
+    errors = []
+    with ThreadPoolExecutor(max_workers=12) as pool:
+        for (n, a, b), out, err in pool.map(one, pairs):
+            if out is None:
+                errors.append(f'pair {n}: {err[-300:]}')
+                continue
+            res.count('same-path-pair')
+            for pos, k in enumerate((a, b, a)):
+                ref = fresh_res[(k, hashseeds[0])]
+                check_side_effects(res, jobs[k], out[pos],
+                                   f'same-path sequence A,B,A position {pos}')
+                if outcome(out[pos]) != outcome(ref):
+                    hist = [{'deck': jobs[j]['deck'], 'args': jobs[j]['args'],
+                             'encoding': jobs[j].get('encoding', 'utf-8')}
+                            for j in (a, b, a)[:pos]]
+                    res.violation(
+                        'impl-violation',
+                        'same process, same input path: deck '
+                        f'{jobs[k]["tags"]} (args {jobs[k]["args"]}) '
+                        f'converted at position {pos} of the sequence A,B,A '
+                        f'gives {outcome(out[pos])}, a fresh process gives '
+                        f'{outcome(ref)} (A = {jobs[a]["tags"]}, B = '
+                        f'{jobs[b]["tags"]})',
+                        {'input': {'history': hist, 'deck': jobs[k]['deck'],
+                                   'args': jobs[k]['args'],
+                                   'encoding': jobs[k].get('encoding',
+                                                           'utf-8'),
+                                   'same_path': True}}, found_input=True)
+    res.obligation(f'sweep: {len(pairs)} same-path sequences A,B,A in one '
+                   'process ran', not errors, '; '.join(errors[:3]))
+
+
 def _sweep(res, tier, seed, rng, scratch):
     quick = tier == 'quick'
     corpus = c18_gen.corpus_jobs(common.REPO)
@@ -358,9 +409,18 @@ def _sweep(res, tier, seed, rng, scratch):
     chunks = [(c, hs, list(range(c, len(jobs), n_chunks)))
               for hs in hashseeds for c in range(n_chunks)]
 
+    # the working directory varies with the seed as well: worker's own cwd
+    # (absolute names), the deck's directory (relative names), an unrelated
+    # empty directory (absolute names; it must stay empty)
+    cwd_of = {hs: [None, 'deckdir', 'elsewhere'][i % 3]
+              for i, hs in enumerate(hashseeds)}
+    res.extra['sweep']['cwd_by_hash_seed'] = {str(k): str(v)
+                                              for k, v in cwd_of.items()}
+
     def fresh(item):
         c, hs, ks = item
-        out, err = run_worker([strip_job(jobs[k], want_text=(hs == 0))
+        out, err = run_worker([strip_job(jobs[k], want_text=(hs == 0),
+                                         cwd=cwd_of[hs])
                                for k in ks], hs, scratch, f'f{c}_{hs}',
                               fork_each=True)
         return ks, hs, out, err
@@ -435,13 +495,15 @@ def _sweep(res, tier, seed, rng, scratch):
             if outcome(other) != outcome(ref):
                 res.violation(
                     'impl-violation',
-                    f'output depends on the hash seed: PYTHONHASHSEED='
-                    f'{hashseeds[0]} gives {outcome(ref)}, PYTHONHASHSEED='
-                    f'{hs} gives {outcome(other)} (deck {job["tags"]}, args '
-                    f'{job["args"]})',
+                    f'output depends on the hash seed or on the working '
+                    f'directory: PYTHONHASHSEED={hashseeds[0]} (cwd: worker) '
+                    f'gives {outcome(ref)}, PYTHONHASHSEED={hs} (cwd: '
+                    f'{cwd_of[hs]}) gives {outcome(other)} (deck '
+                    f'{job["tags"]}, args {job["args"]})',
                     {'input': {'deck': job['deck'], 'args': job['args'],
                                'encoding': job.get('encoding', 'utf-8'),
-                               'hashseeds': [hashseeds[0], hs]}},
+                               'hashseeds': [hashseeds[0], hs],
+                               'cwds': [None, cwd_of[hs]]}},
                     found_input=True)
     res.extra['sweep']['converted_ok'] = n_ok
 
@@ -460,22 +522,23 @@ def _sweep(res, tier, seed, rng, scratch):
                       len(jobs) - 1 - rng.randrange(len(broken)))
         shared = rng.random() < 0.5
         hs = rng.choice(hashseeds)
-        histories.append((h, ks, shared, hs))
+        cwds = [rng.choice([None, None, 'deckdir', 'elsewhere']) for _ in ks]
+        histories.append((h, ks, shared, hs, cwds))
 
     def warm(item):
-        h, ks, shared, hs = item
+        h, ks, shared, hs, cwds = item
         runs = []
-        for k in ks:
+        for k, cwd in zip(ks, cwds):
             slot = 'shared' if (shared and '--cache' not in jobs[k]['args']) \
                 else None
-            runs.append(strip_job(jobs[k], slot=slot))
+            runs.append(strip_job(jobs[k], slot=slot, cwd=cwd))
         out, err = run_worker(runs, hs, scratch, f'w{h}')
         return item, out, err
 
     n_warm = 0
     werrors = []
     with ThreadPoolExecutor(max_workers=16) as pool:
-        for (h, ks, shared, hs), out, err in pool.map(warm, histories):
+        for (h, ks, shared, hs, cwds), out, err in pool.map(warm, histories):
             if out is None:
                 werrors.append(f'history {h}: {err[-300:]}')
                 continue
@@ -485,7 +548,8 @@ def _sweep(res, tier, seed, rng, scratch):
                 n_warm += 1
                 res.count(f'warm:position{min(pos, 6)}')
                 where = (f'warm process, hash seed {hs}, after {pos} other '
-                         f'conversions, shared input path={shared}')
+                         f'conversions, shared input path={shared}, cwd='
+                         f'{cwds[pos]}')
                 check_side_effects(res, job, r, where)
                 if outcome(r) != outcome(ref):
                     hist = [{'deck': jobs[j]['deck'], 'args': jobs[j]['args'],
@@ -496,15 +560,18 @@ def _sweep(res, tier, seed, rng, scratch):
                         f'output depends on earlier conversions in the same '
                         f'process: fresh {outcome(ref)}, after {pos} other '
                         f'conversions {outcome(r)} (deck {job["tags"]}, args '
-                        f'{job["args"]}, shared path={shared})',
+                        f'{job["args"]}, shared path={shared}, cwd='
+                        f'{cwds[pos]})',
                         {'input': {'history': hist, 'deck': job['deck'],
                                    'args': job['args'],
                                    'encoding': job.get('encoding', 'utf-8'),
-                                   'same_path': shared, 'hashseed': hs}},
+                                   'same_path': shared, 'hashseed': hs,
+                                   'cwds': cwds[:pos + 1]}},
                         found_input=True)
     res.obligation(f'sweep: {n_warm} warm-process conversions in '
                    f'{len(histories)} histories ran', not werrors,
                    '; '.join(werrors[:3]))
+    same_path_pairs(res, quick, rng, jobs, fresh_res, hashseeds, scratch)
     cache_witness(res, scratch)
     return jobs, fresh_res, hashseeds
 
@@ -693,9 +760,12 @@ def replay(path):
         job = {'deck': inp['deck'], 'args': inp.get('args', []),
                'encoding': inp.get('encoding', 'utf-8')}
         seeds = inp.get('hashseeds') or [inp.get('hashseed', 0)]
-        for hs in seeds:
-            out, err = run_worker([strip_job(job)], hs, scratch, f'r{hs}')
-            print(f'fresh process, PYTHONHASHSEED={hs}:',
+        cwds = inp.get('cwds') or [None] * len(seeds)
+        for n, hs in enumerate(seeds):
+            cwd = cwds[n] if n < len(cwds) else None
+            out, err = run_worker([strip_job(job, cwd=cwd)], hs, scratch,
+                                  f'r{n}_{hs}')
+            print(f'fresh process, PYTHONHASHSEED={hs}, cwd={cwd}:',
                   out[0] if out else err)
         if inp.get('history') is not None:
             slot = 'shared' if inp.get('same_path') else None
